@@ -251,11 +251,18 @@ def run(eng, R):
             own = [st] if not hasattr(st, "body") else [x for x in (getattr(st, "test", None), getattr(st, "iter", None)) if x is not None]
             return [c for o in own for c in ast.walk(o) if isinstance(c, ast.Call) and (c.func.attr if isinstance(c.func, ast.Attribute) else getattr(c.func, "id", None)) == name]
 
-        want = norm_spec("int(-floor(log10(self._sigma))) + self._n_significant_digits - 1").canon()
-        forms = closed(f, lambda st: [c.args[1] for c in calls_in_stmt(st, "around") if len(c.args) > 1])
+        # (the constructor stores its two arguments in plain fields first: reading the field or the argument afterwards is the same number)
+        stored_first = [_txt(st) for st in f.node.body[:2]]
+        same = sorted(stored_first) == ["self._n_significant_digits = n_significant_digits", "self._sigma = sigma"]
+
+        def arg_form(t):
+            return t.replace("(self)._sigma", "sigma").replace("(self)._n_significant_digits", "n_significant_digits").replace("self._sigma", "sigma").replace("self._n_significant_digits", "n_significant_digits") if same else t
+
+        want = arg_form(norm_spec("int(-floor(log10(self._sigma))) + self._n_significant_digits - 1").canon())
+        forms = [arg_form(x) for x in closed(f, lambda st: [c.args[1] for c in calls_in_stmt(st, "around") if len(c.args) > 1])]
         R.ob("H-dec", "%s.__init__:first estimate" % SF, forms == [want], (f.file, f.lineno), "decimals = n - 1 - floor(log10 sigma) (found %s)" % forms)
-        forms = [x.canon() for ct, x, _ in extract(f, "store", "self._sig", node=f.node)]
-        want2 = norm_spec("int(-floor(log10(around(self._sigma, int(-floor(log10(self._sigma))) + self._n_significant_digits - 1)))) + self._n_significant_digits - 1").canon()
+        forms = [arg_form(x.canon()) for ct, x, _ in extract(f, "store", "self._sig", node=f.node)]
+        want2 = arg_form(norm_spec("int(-floor(log10(around(self._sigma, int(-floor(log10(self._sigma))) + self._n_significant_digits - 1)))) + self._n_significant_digits - 1").canon())
         R.ob("H-dec", "%s.__init__:after rounding" % SF, forms == [want2], (f.file, f.lineno), "decimals must be recomputed from sigma rounded to the first estimate (0.99 -> 1.0 shifts the decimal place); found %s" % forms)
         f = get_func(p, SF, "__call__")
         src = _txt(f.node)
@@ -292,6 +299,25 @@ def run(eng, R):
         ok = src.like("_vs = '%.4g' % value") and common.like_any(src, "_vs = '%s / %d' % (_vs, n_degrees_of_freedom)", "_vs += ' / %d' % (n_degrees_of_freedom,)", "_vs += ' / %d' % n_degrees_of_freedom") \
             and common.like_any(src, "_vs = '%s = %.4g' % (_vs, float(value) / n_degrees_of_freedom)", "_vs += ' = %.4g' % (float(value) / n_degrees_of_freedom,)",
                                 ["_q = float(value) / n_degrees_of_freedom", "_vs += ' = %.4g' % (_q,)"])
+        if not ok:
+            # the same three formatting operations found structurally: which value goes into which %-field
+            import re as _re
+
+            def field_args(spec_re):
+                out = []
+                for n in ast.walk(f.node):
+                    if isinstance(n, (ast.BinOp, ast.AugAssign)) and isinstance(n.op, ast.Mod) or (isinstance(n, ast.AugAssign) and isinstance(n.op, ast.Add) and isinstance(n.value, ast.BinOp)):
+                        b = n.value if isinstance(n, ast.AugAssign) else n
+                        if not (isinstance(b, ast.BinOp) and isinstance(b.op, ast.Mod) and isinstance(b.left, ast.Constant) and isinstance(b.left.value, str)):
+                            continue
+                        specs = _re.findall(r"%[#0-9.]*[a-zA-Z]", b.left.value.replace("%%", ""))
+                        args = list(b.right.elts) if isinstance(b.right, ast.Tuple) else [b.right]
+                        if len(specs) == len(args):
+                            out += [_txt(common.resolve_local(f.node, a)) for sp, a in zip(specs, args) if _re.fullmatch(spec_re, sp)]
+                return out
+
+            ok = "value" in field_args(r"%\.4g") and "float(value) / n_degrees_of_freedom" in field_args(r"%\.4g") and field_args(r"%d") == ["n_degrees_of_freedom"] \
+                and set(field_args(r"%\.4g")) == {"value", "float(value) / n_degrees_of_freedom"}
         R.ob("H-dec", "CostFunctionFormatter.get_formatted", ok, (f.file, f.lineno), "the cost is printed with 4 significant digits, the ndf as integer, the quotient as value / ndf")
 
     # ------------------------------------------------------------------ H-exp
